@@ -14,7 +14,9 @@ Max(a, b) == IF a > b THEN a ELSE b
 Row(j) == [v |-> j[1], k |-> j[2], t |-> j[3]]
 RowsOf(js) == [i \in 1 .. Len(js) |-> Row(js[i])]
 \* map_partitions in front of the aggregation: a filter that can empty a batch / an assignment
-PreOf(rows) == IF TR.pre = "pos" THEN SelectSeq(rows, LAMBDA r : r.v # NaN /\ r.v > 0) ELSE rows
+PreOf(rows) == IF TR.pre = "pos" THEN SelectSeq(rows, LAMBDA r : r.v # NaN /\ r.v > 0)
+               ELSE IF TR.pre = "setinc" THEN [i \in 1 .. Len(rows) |-> IF rows[i].v = NaN THEN rows[i] ELSE [rows[i] EXCEPT !.v = @ + 1]]
+               ELSE rows
 
 JFun(j) == [k \in {j[i][1] : i \in 1 .. Len(j)} |-> (j[CHOOSE i \in 1 .. Len(j) : j[i][1] = k])[2]]
 \* logged (JSON) result against a specification result
